@@ -276,6 +276,7 @@ theorem queryByIntervalGuids_meets (src : Source) (wf : SrcWF src) (gw : GcWF sr
       rfl
     · rw [← hcg]; exact stepF_of src wf ids c hc a b hh
   unfold okQueryByIntervalGuids queryByIntervalGuids
+  rw [checkSource_ok wf.cons]
   simp only [bind, Except.bind]
   rw [hmap]
   simp only []
